@@ -603,6 +603,43 @@ pub fn check_gcc(idx: u64, seed: u64, rep: &mut Report) {
             }
         }
     }
+    // client core data: the clientName field is 16 UTF-16 code units, at most 15 of the name (never half of a surrogate
+    // pair) and zeros from there on, whatever the name is made of; the block keeps its size
+    {
+        let mut nr = Rng::derive(seed, "C18gcc-name", 3, idx);
+        let count = nr.below(20) as usize;
+        let name: String = (0..count)
+            .map(|_| match nr.below(4) {
+                0 => (b'a' + nr.below(26) as u8) as char,
+                1 => *nr.pick(&['é', 'Ж', '中', '\u{ffff}', '\u{d7ff}', '\u{e000}']),
+                _ => *nr.pick(&['🔑', '𐌰', '\u{10000}', '\u{10ffff}', '😀']),
+            })
+            .collect();
+        let mut units: Vec<u16> = name.encode_utf16().take(15).collect();
+        if let Some(l) = units.last() {
+            if (0xD800..0xDC00).contains(l) {
+                units.pop();
+            }
+        }
+        units.resize(16, 0);
+        let want: Vec<u8> = units.iter().flat_map(|u| u.to_le_bytes().to_vec()).collect();
+        let rp = json!({"part": "gcc.core", "gen": [3, idx, seed], "name": name});
+        let nm = name.clone();
+        match mon::guarded(move || {
+            let c = gcc::client_core_data(Some(gcc::ClientData { width: 800, height: 600, layout: gcc::KeyboardLayout::US, server_selected_protocol: 1, rdp_version: gcc::Version::RdpVersion5plus, name: nm }));
+            rdp::model::data::to_vec(&c)
+        }) {
+            Err(p) => v(rep, &format!("gcc.core/{}", p.sig()), p.msg.clone(), rp),
+            Ok(b) => {
+                rep.hist(&format!("gcc.core-name-units-{}", name.encode_utf16().count().min(17)));
+                if b.len() != 212 {
+                    v(rep, "gcc.core/size-differs", format!("client core data of {} bytes for a name of {} characters, 212 expected", b.len(), name.chars().count()), rp);
+                } else if b[20..52] != want[..] {
+                    v(rep, "gcc.core/clientName-differs", format!("name {:?} ({} code units): field {} vs reference {}", name, name.encode_utf16().count(), hex(&b[20..52]), hex(&want)), rp);
+                }
+            }
+        }
+    }
     // response: every response the reference encoder can produce from the profile generator
     let sel = *r.pick(&[0u32, 1, 2]);
     let mut p = crate::gen::profile(&mut r, sel);
@@ -777,7 +814,7 @@ pub fn replay(_cfg: &Cfg, v: &Value) -> Report {
             let g = gen(v);
             check_asn1(g[1], g[2], &mut rep)
         }
-        "gcc.response" => {
+        "gcc.response" | "gcc.core" => {
             let g = gen(v);
             check_gcc(g[1], g[2], &mut rep)
         }
